@@ -106,11 +106,28 @@ Proof.
   rewrite (sim_len _ _ Hs). reflexivity.
 Qed.
 
-Lemma parse_proto_sim fx s s' f proto :
-  sim s s' -> (0 < f_offP f)%nat -> (f_offP f <= len s)%nat -> parse_proto fx s' f proto = parse_proto fx s f proto.
+(* the echo condition reads IP header bytes, all within the length once the IP layer was validated *)
+Definition hdr_in (s : slice) (f : frame) : Prop :=
+  (f_off4 f = 0%nat \/ f_off4 f + 20 <= len s)%nat /\ (f_off6 f = 0%nat \/ f_off6 f + 40 <= len s)%nat.
+
+Lemma sim_echo_gate s s' f id : sim s s' -> hdr_in s f -> echo_gate s' f id = echo_gate s f id.
 Proof.
-  intros Hs H0 H1. pose proof (sim_slfrom _ _ _ Hs H1) as Hp.
+  intros Hs [H4 H6]. unfold echo_gate. destruct (id =? PayloadICMP4).
+  - destruct (Nat.eqb_spec (f_off4 f) 0) as [E|E]; [rewrite E; cbn [negb andb]; reflexivity|].
+    destruct H4 as [H4|H4]; [contradiction|].
+    rewrite !(sim_nth _ _ _ Hs) by lia. reflexivity.
+  - destruct (Nat.eqb_spec (f_off6 f) 0) as [E|E]; [rewrite E; cbn [negb andb]; reflexivity|].
+    destruct H6 as [H6|H6]; [contradiction|].
+    rewrite !(sim_nth _ _ _ Hs) by lia. reflexivity.
+Qed.
+
+Lemma parse_proto_sim fx s s' f proto :
+  sim s s' -> (0 < f_offP f)%nat -> (f_offP f <= len s)%nat -> hdr_in s f ->
+  parse_proto fx s' f proto = parse_proto fx s f proto.
+Proof.
+  intros Hs H0 H1 Hh. pose proof (sim_slfrom _ _ _ Hs H1) as Hp.
   rewrite !parse_proto_chain_eq. unfold parse_proto_chain.
+  rewrite !(sim_echo_gate s s' f _ Hs Hh).
   repeat match goal with |- context [if ?c then _ else _] => destruct c end; try reflexivity;
   rewrite (payload_view_sim s s') by (cbn; auto); rewrite (payload_view_pos s) by (cbn; auto);
   cbn [f_offP set_id] in *;
@@ -135,7 +152,7 @@ Proof.
   dcond; cbn [bind]; [|reflexivity].
   repeat simstep Hp. repeat (rd; cbn [bind]).
   unfold bytes_at. repeat (rd; cbn [bind]).
-  apply parse_proto_sim; cbn [f_offP]; auto; lia.
+  apply parse_proto_sim; cbn [f_offP]; auto; try lia; unfold hdr_in; cbn [f_off4 f_off6]; lia.
 Qed.
 
 Lemma parse_ip6_sim c s s' f :
@@ -152,7 +169,7 @@ Proof.
   repeat simstep Hp. repeat (rd; cbn [bind]).
   match goal with |- context [if ?c then _ else _] => destruct c end; cbn [bind]; [|reflexivity].
   unfold bytes_at. repeat (rd; cbn [bind]).
-  apply parse_proto_sim; cbn [f_offP]; auto; lia.
+  apply parse_proto_sim; cbn [f_offP]; auto; try lia; unfold hdr_in; cbn [f_off4 f_off6]; lia.
 Qed.
 
 Lemma parse_leaf_sim s s' f id : sim s s' -> (14 <= len s)%nat -> parse_leaf s' f id = parse_leaf s f id.
@@ -211,3 +228,33 @@ Example parse_len_only_nonvacuous :
   wf s /\ wf s' /\ len s = len s' /\ view s = view s' /\
   (cap s <> cap s')%nat /\ is_ok (parse cfg0 s) = true.
 Proof. vm_compute. repeat split; try lia; try reflexivity. Qed.
+
+(* in particular the two side outputs: the echo id handed to echoNotify and the key handed to the host table *)
+Corollary parse_side_outputs_len_only c s s' f f' :
+  wf s -> wf s' -> len s = len s' -> view s = view s' -> parse c s = Ok f -> parse c s' = Ok f' ->
+  f_echo f = f_echo f' /\ f_host f = f_host f'.
+Proof.
+  intros H1 H2 H3 H4 Hp Hp'. rewrite (parse_len_only c s s' H1 H2 H3 H4) in Hp. rewrite Hp in Hp'.
+  injection Hp' as <-. split; reflexivity.
+Qed.
+
+(* echoNotify is reached only for an ICMP echo reply inside IPv4 with version nibble 4 (resp. ICMPv6 inside IPv6,
+   version 6) whose 8 byte echo header lies inside the IP datagram *)
+Definition ex_echo4 : bytes :=
+  ([0;102;102;102;102;102; 2;17;17;17;17;17; 8;0] ++
+   [69;0;0;28; 0;0;0;0; 64;1;0;0; 192;168;0;7; 192;168;0;129] ++ [0;0;0;0; 18;52; 0;1])%list.
+Definition set_b (i : nat) (v : N) (l : bytes) : bytes := set_nth i v l.
+Example echo_examples :
+  (* echo reply inside IPv4: id 0x1234 *)
+  option_map f_echo (match parse cfg1 (of_bytes ex_echo4) with Ok f => Some f | _ => None end) = Some (Some 4660) /\
+  (* version nibble 5 *)
+  option_map f_echo (match parse cfg1 (of_bytes (set_b 14 85 ex_echo4)) with Ok f => Some f | _ => None end) = Some None /\
+  (* TotalLen 27: only 7 ICMP bytes inside the datagram, the 8th is a trailing byte of the frame *)
+  option_map f_echo (match parse cfg1 (of_bytes (set_b 17 27 ex_echo4)) with Ok f => Some f | _ => None end) = Some None /\
+  (* echo request (type 8) *)
+  option_map f_echo (match parse cfg1 (of_bytes (set_b 34 8 ex_echo4)) with Ok f => Some f | _ => None end) = Some None /\
+  (* ICMPv6 (protocol 58, type 129) inside IPv4: PayloadICMP6, no notification *)
+  option_map (fun f => (f_id f, f_echo f))
+    (match parse cfg1 (of_bytes (set_b 34 129 (set_b 23 58 ex_echo4))) with Ok f => Some f | _ => None end)
+  = Some (PayloadICMP6, None).
+Proof. repeat split; vm_compute; reflexivity. Qed.
